@@ -31,6 +31,7 @@ func init() {
 			{ID: "C20.R8", Text: "the deadline is the configured one for every call: no component rewrites the shared configuration after defaulting (same rule as C17.R6)", Run: configImmutable},
 			{ID: "C20.R9", Text: "the server is asked: in every single-operation wrapper each return is dominated by the call that issues the operation, or carries an error known to be non-nil (no answer from a cache)", Run: opAlwaysIssued},
 			{ID: "C20.R10", Text: "no success without confirmation in the checkpoint write ladder (same rule as C05.R15)", Run: upsertLadder},
+			{ID: "C20.R11", Text: "no step around an operation loses its error: every fallible call in a wrapper (configuration snapshot, id resolution, dispatch, AsyncOp.Wait, errgroup Wait) has its error reach a return/panic/send along edges on which it can be non-nil; a result channel is read only after Wait succeeded; an errgroup's Wait is reported", Run: wrapperStepErrors},
 			{ID: "C20.R4", Text: "a deadline exists for every operation (own deadline from time.Now, or a deadline-bearing context at every call site)", Run: c20r4},
 		},
 	})
